@@ -36,6 +36,10 @@ pub struct Case {
     /// files of other (longer) content already sit where the archive and the restored file go
     #[serde(default)]
     pub stale_outputs: bool,
+    /// (round trip, implemented level) the content reaches the tool through a named pipe at the
+    /// input path instead of a regular file: same bytes, but no size to be known in advance
+    #[serde(default)]
+    pub via_fifo: bool,
 }
 
 static COUNTER: AtomicU64 = AtomicU64::new(0);
@@ -89,7 +93,23 @@ pub fn check(case: &Case, ctx: &mut CaseCtx) -> CaseResult {
     ctx.feat_if(std::str::from_utf8(name_bytes).is_ok() && !name_bytes.is_ascii(), "name:non_ascii_utf8");
     let data = case.data.render();
     let input = dir.join(&name);
-    if case.scenario != Scenario::MissingInput {
+    let fifo = case.via_fifo && case.scenario == Scenario::RoundTrip && matches!(case.level, Level::Absent | Level::L(0) | Level::L(1));
+    let mut feeder: Option<std::thread::JoinHandle<()>> = None;
+    if fifo {
+        let ok = Command::new("mkfifo").arg(&input).status().map(|s| s.success()).unwrap_or(false);
+        if !ok {
+            return Err(Failure::new("machinery", "mkfifo failed".to_string()));
+        }
+        let (path, bytes) = (input.clone(), data.clone());
+        feeder = Some(std::thread::spawn(move || {
+            use std::io::Write;
+            // blocks until the tool opens the pipe for reading (or until the harness does, below)
+            if let Ok(mut f) = std::fs::OpenOptions::new().write(true).open(&path) {
+                let _ = f.write_all(&bytes);
+            }
+        }));
+        ctx.feat("input:named_pipe");
+    } else if case.scenario != Scenario::MissingInput {
         std::fs::write(&input, &data).map_err(|e| Failure::new("machinery", format!("{e}")))?;
     }
     let zst_name: std::ffi::OsString = if case.explicit_out {
@@ -124,6 +144,23 @@ pub fn check(case: &Case, ctx: &mut CaseCtx) -> CaseResult {
         std::fs::write(&zst_path, vec![0xEEu8; data.len() + 1000]).map_err(|e| Failure::new("machinery", format!("{e}")))?;
     }
     let r = run(&dir, &args)?;
+    if let Some(h) = feeder.take() {
+        // release a feeder the tool never read from: open the read end ourselves, then let go
+        {
+            use std::os::unix::fs::OpenOptionsExt;
+            let _ = std::fs::OpenOptions::new().read(true).custom_flags(0o4000).open(&input);
+            let _ = h.join();
+        }
+        let _ = std::fs::remove_file(&input);
+        if r.code != Some(0) && !r.panicked && !zst_path.exists() {
+            // a tool may decline an input that is not a regular file - openly
+            ctx.feat("input:named_pipe_declined_cleanly");
+            ctx.set_hash_bytes(&[format!("{case:?}").as_bytes()]);
+            return Ok(());
+        }
+        // the original is gone with the pipe: the decompress step below compares with `data`
+        std::fs::write(dir.join("original.keep"), &data).ok();
+    }
     ctx.feat(match case.level {
         Level::Absent => "level:absent",
         Level::L(0) => "level:0",
@@ -243,11 +280,14 @@ fn case_strategy(tier: Tier) -> impl Strategy<Value = Case> {
         1 => Just(Scenario::GarbageArchive),
         2 => any::<u16>().prop_map(Scenario::TruncatedArchive),
     ];
-    (data_strategy(max), 0u8..=7, level, any::<bool>(), scenario, prop::bool::weighted(0.3)).prop_map(|(data, name, level, explicit_out, scenario, stale_outputs)| Case { data, name, level, explicit_out, scenario, stale_outputs })
+    (data_strategy(max), 0u8..=7, level, any::<bool>(), scenario, prop::bool::weighted(0.3)).prop_map(|(data, name, level, explicit_out, scenario, stale_outputs)| {
+        let via_fifo = !stale_outputs && data.seed % 8 == 0;
+        Case { data, name, level, explicit_out, scenario, stale_outputs, via_fifo }
+    })
 }
 
 pub fn run_check(eng: &Engine) {
-    eng.set_rule("the real ruzstd-cli binary in a private directory: file contents from the data generator (0 B .. 1 MiB quick / 8 MiB thorough; names with dots, spaces, no extension, non-ASCII UTF-8, bytes that are not UTF-8) x level option {absent, -l 0, -l 1, -l 2..4 (unimplemented), -l 9, -l 255} x explicit / defaulted output paths (optionally with stale, longer files already at both destinations) x scenarios {round trip, missing input, output directory missing, garbage archive, truncated archive}; oracle: implemented levels and no level given: exit 0, archive decodes with libzstd to the original, decompress exit 0, restored file identical; operations that cannot be carried out: non-zero exit status and not (panic AND an output file left behind); never exit 0 with a wrong or partial file; non-trivial = non-empty content and (no level given or content > 128 KiB); distinct by (content, options) hash");
+    eng.set_rule("the real ruzstd-cli binary in a private directory: file contents from the data generator (0 B .. 1 MiB quick / 8 MiB thorough; names with dots, spaces, no extension, non-ASCII UTF-8, bytes that are not UTF-8) x level option {absent, -l 0, -l 1, -l 2..4 (unimplemented), -l 9, -l 255} x input as a regular file or through a named pipe x explicit / defaulted output paths (optionally with stale, longer files already at both destinations) x scenarios {round trip, missing input, output directory missing, garbage archive, truncated archive}; oracle: implemented levels and no level given: exit 0, archive decodes with libzstd to the original, decompress exit 0, restored file identical; operations that cannot be carried out: non-zero exit status and not (panic AND an output file left behind); never exit 0 with a wrong or partial file; non-trivial = non-empty content and (no level given or content > 128 KiB); distinct by (content, options) hash");
     eng.assume("the sandbox runs as root, so permission bits cannot be used to make operations fail; a missing directory is used instead");
     let tier = eng.tier;
     let n = eng.tier.pick(2_500, 20_000);
